@@ -15,6 +15,11 @@ def _runs(tier):
          ["ReferenceGood", "RustGood", "RustIsReference"], True),
         ("MC_LegacySort", {"Aspect": '"any"', "MaxLen": 7 if q else 9, "NKeys": 3, "DepthThreshold": 32, "OverflowChecks": "TRUE"},
          ["ReferenceGood"], True),
+        # the .NET-style introsort of the slider nested objects: every sequence over two key values at the lengths right above
+        # the insertion-sort threshold (ties everywhere: the unguarded scans lean on their sentinels) ...
+        ("MC_CsharpSort", {"Aspect": '"csharpsort"', "MaxLen": 17 if q else 19, "MinLen": 17, "NKeys": 2, "Threshold": 16}, ["SortGood"], True),
+        # ... and, model-only, the partition / heap code on short lists (threshold lowered to 3), three key values
+        ("MC_CsharpSort", {"Aspect": '"csharpsort"', "MaxLen": 7 if q else 9, "MinLen": 0, "NKeys": 3, "Threshold": 3}, ["SortGood"], False),
         # the heap-sort fallback: reached in the code only after 32 nested partitions, so model-only
         ("MC_LegacySort", {"Aspect": '"sorted"', "MaxLen": 12 if q else 16, "NKeys": 3, "DepthThreshold": 2, "OverflowChecks": "TRUE"},
          ["ReferenceGood", "RustGood", "RustIsReference"], False),
@@ -29,12 +34,12 @@ def run_utils(res, tier, binp, which=("tandem", "queue", "legacysort")):
     with open(scen, "w") as sf:
         for k, (module, consts, invs, replayable) in enumerate(_runs(tier)):
             aspect = consts["Aspect"].strip('"')
-            kind = aspect if module == "MC_Utils" else "legacysort"
+            kind = aspect if module == "MC_Utils" else ("csharpsort" if module == "MC_CsharpSort" else "legacysort")
             if kind not in which:
                 continue
             cfgp = os.path.join(common.OUT, "%s_%d_%s_%d.cfg" % (module, k, tier, pid))
             with open(cfgp, "w") as f:
-                f.write("CONSTANTS\n" + "".join("  %s = %s\n" % kv for kv in consts.items()))
+                f.write("CONSTANTS\n" + "".join("  %s = %s\n" % kv for kv in consts.items() if not (module == "MC_CsharpSort" and kv[0] == "Aspect")))
                 f.write("INIT Init\nNEXT Next\n" + "".join("INVARIANT %s\n" % i for i in invs) + "INVARIANT Printer\nCHECK_DEADLOCK FALSE\n")
             r = common.run_tlc(module, cfgp, workers=4, timeout=3600, name="%s_%d_%s" % (module, k, tier))
             res.add_tlc(r)
@@ -46,7 +51,7 @@ def run_utils(res, tier, binp, which=("tandem", "queue", "legacysort")):
             if replayable:
                 part = scen + ".part"
                 n = common.extract_replay(r["log"], part)
-                if n != r["distinct"]:
+                if n != r["distinct"] and module != "MC_CsharpSort":        # MC_CsharpSort prints only the lengths at / above MinLen
                     raise common.ToolError("scenario lines (%d) != distinct states (%d)" % (n, r["distinct"]))
                 sf.write(open(part).read())
                 os.remove(part)
